@@ -7,7 +7,6 @@ REPO = os.environ.get("VH_REPO_DIR", "/repo")
 TLA_JAR = "/opt/veriftools/tla/tla2tools.jar"
 CM_JAR = "/opt/veriftools/tla/CommunityModules-deps.jar"
 CLASSES = VERIF + "/out/classes"
-STAGE = VERIF + "/out/stage"
 
 
 class Infra(Exception):
@@ -40,7 +39,7 @@ def setup_classes():
     open(stamp, "w").write("ok")
 
 
-def stage_specs():
+def stage_specs(STAGE):
     """flat directory with every spec module and cfg (TLC resolves EXTENDS in the root module's dir)"""
     os.makedirs(STAGE, exist_ok=True)
     for d in ("base", "scheme", "api", "trace", "cfg", "selftest"):
@@ -72,13 +71,13 @@ class TlcResult:
 
 def tlc(module, cfg, outdir, env=None, workers=16, timeout=900, extra=(), heap="8g", overrides=True, simulate=None):
     setup_classes()
-    stage = stage_specs()
+    stage = stage_specs(os.path.join(outdir, 'stage'))
     meta = os.path.join(outdir, "meta_%s_%d" % (os.path.basename(cfg).replace(".cfg", ""), os.getpid()))
     shutil.rmtree(meta, ignore_errors=True)
     os.makedirs(outdir, exist_ok=True)
     cp = ":".join(([CLASSES] if overrides else []) + [TLA_JAR, CM_JAR])
     cmd = ["java", "-Xss512m", "-XX:+UseParallelGC", "-Xmx" + heap, "-cp", cp, "tlc2.TLC",
-           "-workers", str(workers), "-metadir", meta, "-config", os.path.join(stage, cfg)]
+           "-workers", str(workers), "-noGenerateSpecTE", "-metadir", meta, "-config", os.path.join(stage, cfg)]
     if simulate:
         cmd += ["-simulate", simulate]
     cmd += list(extra) + [os.path.join(stage, module)]
@@ -95,17 +94,17 @@ def tlc(module, cfg, outdir, env=None, workers=16, timeout=900, extra=(), heap="
     return r
 
 
-def build(variant):
-    p = run([VERIF + "/harness/build.sh", variant], 600)
+def build(variant, outdir, groups):
+    p = run([VERIF + "/harness/build.sh", variant, outdir] + list(groups), 900)
     if p.returncode != 0:
         raise Infra("harness build (%s) failed:\n%s" % (variant, p.stdout[-3000:]))
-    return "%s/out/bin/vh_%s" % (VERIF, variant)
+    return "%s/vh_%s" % (outdir, variant)
 
 
-def build_many(variants):
+def build_many(variants, outdir, groups):
     import concurrent.futures as cf
     with cf.ThreadPoolExecutor(max_workers=8) as ex:
-        return dict(zip(variants, ex.map(build, variants)))
+        return dict(zip(variants, ex.map(lambda v: build(v, outdir, groups), variants)))
 
 
 def harness(binary, records, timeout=600, env=None):
